@@ -72,6 +72,10 @@ def generate(seed, tier):
         orders = [o for o in orders if o < N] or [1]
         case.update(N=N, time=rng.choice([rng.randint(1, 8)] * 6 + [100, 1001, 1500, 2300]),
                     acts=[[o, [round(rng.random() * rng.choice([0.2, 0.6, 1.0]), 3) for _ in range(N)]] for o in orders])
+        if rng.random() < 0.12:
+            # an activity table made for a larger system: the model is about the first N nodes ("nodes below N")
+            extra = rng.randint(1, N + 2)
+            case["acts"] = [[o, v + [round(rng.random(), 3) for _ in range(extra)]] for o, v in case["acts"]]
         if case["time"] > 50:
             # long horizons: keep the activity low so that the event list stays small
             case["acts"] = [[o, [round(a * 0.02, 5) for a in v]] for o, v in case["acts"]]
